@@ -129,7 +129,8 @@ def regenerate(ctx):
 
 S = core.strlit
 IMPORTS = ['Grist.Model.Codegen', 'Grist.Model.Dollar', 'GristGen.Codegen_gen']
-EQ = 'Definition teq (a b : list Z) : bool := if list_eq_dec Z.eq_dec a b then true else false.\n'
+EQ = ('Definition teq (a b : list Z) : bool := if list_eq_dec Z.eq_dec a b then true else false.\n'
+      'Definition misc_case := ((list Z * list Z) + ((list Z * list Z) + (Z * list Z)))%type.\n')
 
 
 def _impl_indent(t, ind):
@@ -168,6 +169,8 @@ def _impl_stub(t, etype, msg, lineno, offset):
 
 def correspond(ctx):
   import concurrent.futures
+  import warnings
+  warnings.filterwarnings('ignore', category=SyntaxWarning)
   rng = ctx.rng
   jobs = []          # (name, check, cases, used, what, shard)
 
@@ -177,7 +180,7 @@ def correspond(ctx):
   if [c for c in spaces if c < 0x3100] != spaces_re or any(c >= 0x3100 for c in spaces):
     ctx.broken('monitor:whitespace', 'str.isspace and regex \\s disagree or a whitespace code point >= 0x3100 exists')
   samples = [rng.randrange(0x3100, 0x110000) for _ in range(300)]
-  misc = ['(inl (%s, %s))' % (core.zlist(spaces_re), core.zlist(samples))]
+  misc = ['(inl (%s, %s) : misc_case)' % (core.zlist(spaces_re), core.zlist(samples))]
   ctx.bump('corr:is_space code points', 0x3100 + len(samples))
 
   N = ctx.n(250, 6000)
@@ -235,6 +238,10 @@ def correspond(ctx):
     except IndexError:
       ctx.bump('corr:stub skipped (line number beyond str.splitlines)')
       continue
+    except (SyntaxError, ValueError, AttributeError, TypeError) as e:
+      ctx.broken('correspondence:the stub does not end in one statement `raise Name(<literals>)`',
+                 'text %r, message %r: %r' % (t, msg, e))
+      continue
     cases.append('(%s, %s, %s, %s, %s, %s, %s)' % (S(name), S(message), core.zlit(line), core.zlit(col1), S(line_text),
                                                    S(t), S(out)))
     used.append((t, name, message, line, col1, line_text))
@@ -249,8 +256,8 @@ def correspond(ctx):
                                   rng.randrange(0xe000, 0x11000), rng.randrange(0xe0000, 0xe0200), 39, 34, 92]))
                   for _ in range(rng.randint(0, 8))) for _ in range(ctx.n(120, 3000))]
   ints = [0, 1, 9, 10, 99, 100, 12345, -1, -10, 2 ** 40] + [rng.randrange(-50, 100000) for _ in range(100)]
-  misc += ['(inr (inl (%s, %s)))' % (S(x), S(repr(x))) for x in strs]
-  misc += ['(inr (inr (%s, %s)))' % (core.zlit(n), S(repr(n))) for n in ints]
+  misc += ['(inr (inl (%s, %s)) : misc_case)' % (S(x), S(repr(x))) for x in strs]
+  misc += ['(inr (inr (%s, %s)) : misc_case)' % (core.zlit(n), S(repr(n))) for n in ints]
   jobs.append(('misc', 'fun c => match c with '
                '| inl (sp, others) => teq (filter is_space (map Z.of_nat (seq 0 12544))) sp && '
                'forallb (fun x => negb (is_space x)) others '
@@ -321,7 +328,15 @@ def token_stream(f0):
     i += 1
   if pos < len(f0):
     segs.append(('C', f0[pos:]))
-  return segs
+  # a string piece ending in `$` (e.g. the literal part of an f-string) is joined with what follows it, so
+  # that no opaque segment ends with `$` (the model's well-formedness condition)
+  merged = []
+  for k, sg in segs:
+    if merged and merged[-1][0] == 'O' and merged[-1][1].endswith('$') and k in ('C', 'O'):
+      merged[-1] = ('O', merged[-1][1] + sg)
+    else:
+      merged.append((k, sg))
+  return merged
 
 
 def with_mark(segs):
@@ -456,7 +471,9 @@ class Doc(object):
     import logging
     import engine
     import useractions
+    import warnings
     logging.disable(logging.CRITICAL)
+    warnings.filterwarnings('ignore', category=SyntaxWarning)
     self.ua = useractions
     self.e = engine.Engine()
     self.e.load_empty()
